@@ -46,7 +46,7 @@ def dy_col(name, arr, K):
         ms.append(abs(m)); metas.append(2 * s + (1 if m < 0 else 0))
     return (f"Definition {name}_m : list int := [{';'.join(map(str, ms))}]%uint63.\n"
             f"Definition {name}_e : list int := [{';'.join(map(str, metas))}]%uint63.\n"
-            f"Definition {name} : list Z := Eval vm_compute in map2z {name}_m {name}_e.\n")
+            f"Definition {name} : list Z := map2z {name}_m {name}_e.\n")
 
 
 DY_HDR = INT_HDR + ("Local Open Scope Z_scope.\n"
@@ -217,3 +217,121 @@ def generate_int(srcdir):
 
 def pb_zlist(xs):
     return "[" + "; ".join(pb.zlit(x) for x in xs) + "]"
+
+
+# =========================================================================================================
+# double-valued columns and the real-valued lookup kernels (C09)
+RHDR = ("(* GENERATED on every run by tools/gen_geom.py from {src} — do not edit *)\n"
+        "From Coq Require Import ZArith Bool List Reals.\nFrom PV.Lib Require Import Bits Tables RTables.\n")
+
+MDC_POS = ("east_x", "east_y", "east_z", "west_x", "west_y", "west_z")
+EMC_CTR = ("center_x", "center_y", "center_z", "front_center_x", "front_center_y", "front_center_z")
+EMC_PTS = ("points_x", "points_y", "points_z")
+PT_CHUNK = 780  # crystals per file
+
+
+def copy_discipline(tree, fname, fn_name, dict_name):
+    """statement dictionary for get_*_position: returns 'copy' iff every array handed out derives from a fresh copy"""
+    fn = next((n for n in tree.body if isinstance(n, ast.FunctionDef) and n.name == fn_name), None)
+    if fn is None:
+        raise Untranslatable(f"{fname}: no {fn_name}")
+    texts = [ast.unparse(s) for s in fn.body if not (isinstance(s, ast.Expr) and isinstance(s.value, ast.Constant))]
+    if "_ensure_loaded()" not in texts[:1]:
+        raise Untranslatable(f"{fname}: {fn_name} does not load first")
+    cp = f"cp: dict[str, np.ndarray] = {{k: v.copy() for k, v in {dict_name}.items()}}"
+    alias_markers = [t for t in texts if dict_name in t and t != cp]
+    if cp in texts and not alias_markers:
+        mode = "copy"
+    else:
+        mode = "alias"
+    return mode, texts
+
+
+def generate_float(srcdir):
+    """returns (files, groups, log): groups = list of lists of file names that can be compiled in parallel, in order"""
+    files, log = {}, {}
+    gdir = srcdir / "detectors" / "geometry"
+    mdc = np.load(gdir / "mdc_geom.npz"); emc = np.load(gdir / "emc_geom.npz")
+    for c in MDC_POS:
+        if mdc[c].dtype != np.float64 or mdc[c].shape != (6796,):
+            raise Untranslatable(f"mdc column {c}: {mdc[c].dtype} {mdc[c].shape}")
+    for c in EMC_CTR:
+        if emc[c].dtype != np.float64 or emc[c].shape != (6240,):
+            raise Untranslatable(f"emc column {c}")
+    for c in EMC_PTS:
+        if emc[c].dtype != np.float64 or emc[c].shape != (6240, 8):
+            raise Untranslatable(f"emc column {c}")
+    Km = fractional_bits([mdc[c] for c in MDC_POS])
+    Ke = fractional_bits([emc[c] for c in EMC_CTR + EMC_PTS])
+    log["K"] = {"mdc": Km, "emc": Ke}
+    g1 = []
+    for c in MDC_POS:
+        files[f"TabMdcPos_{c}.v"] = DY_HDR.format(src="mdc_geom.npz") + dy_col("mdc_" + c, mdc[c], Km)
+        g1.append(f"TabMdcPos_{c}.v")
+    nchunk = (6240 + PT_CHUNK - 1) // PT_CHUNK
+    for k in range(nchunk):
+        t = DY_HDR.format(src="emc_geom.npz")
+        sl = slice(k * PT_CHUNK, (k + 1) * PT_CHUNK)
+        for c in EMC_CTR:
+            t += dy_col(f"emc_{c}_{k}", emc[c][sl], Ke)
+        for c in EMC_PTS:
+            t += dy_col(f"emc_{c}_{k}", emc[c][sl].ravel(), Ke)
+        t += f"Definition emc_chunk_rows_{k} : Z := {len(emc['gid'][sl])}.\n"
+        files[f"TabEmcPos_{k}.v"] = t
+        g1.append(f"TabEmcPos_{k}.v")
+    t = ("From Coq Require Import ZArith List.\nImport ListNotations.\nFrom PV.Lib Require Import Tables RTables.\n"
+         + "".join(f"From PV.Gen Require Import TabMdcPos_{c}.\n" for c in MDC_POS)
+         + "".join(f"From PV.Gen Require Import TabEmcPos_{k}.\n" for k in range(nchunk))
+         + f"Definition mdc_pos_K : Z := {Km}%Z.\nDefinition emc_pos_K : Z := {Ke}%Z.\n"
+         + f"Definition emc_chunk : Z := {PT_CHUNK}%Z.\nDefinition emc_nchunk : Z := {nchunk}%Z.\n")
+    for c in EMC_CTR:
+        t += f"Definition emc_{c} : list Z := " + " ++ ".join(f"emc_{c}_{k}" for k in range(nchunk)) + ".\n"
+    for c in EMC_PTS:
+        t += (f"Definition emc_{c} : tab2 := {{| t2w := 8%Z; t2flat := "
+              + " ++ ".join(f"emc_{c}_{k}" for k in range(nchunk)) + " |}.\n")
+    files["TabPos.v"] = t
+    # ---- kernels over R
+    mpath = str(gdir / "mdc.py")
+    mtree = ast.parse(open(mpath).read())
+    mcols = parse_loader(mtree, mpath, "_mdc_wire_position", "mdc_geom.npz", MDC_LOADER_DERIVED)
+    tabs = {}
+    for py, col in mcols.items():
+        if col in MDC_POS:
+            tabs[py] = (f"mdc_pos_K mdc_{col}", "R")
+    tabs["dx_dz"] = ("dx_dz", "RF")
+    tabs["dy_dz"] = ("dy_dz", "RF")
+    inv = {col: py for py, col in mcols.items()}
+    float_kernels = ["mdc_gid_to_west_x", "mdc_gid_to_west_y", "mdc_gid_to_west_z", "mdc_gid_to_east_x", "mdc_gid_to_east_y",
+                     "mdc_gid_to_east_z", "mdc_gid_z_to_x", "mdc_gid_z_to_y"]
+    int_kernels = ["get_mdc_gid", "mdc_gid_to_superlayer", "mdc_layer_to_superlayer", "mdc_gid_to_layer", "mdc_gid_to_wire",
+                   "mdc_gid_to_stereo", "mdc_layer_to_is_stereo", "mdc_gid_to_is_stereo"]
+    mt = kernel_module(mpath, tabs, float_kernels, extra_skip=int_kernels)
+    body = mt.run(only=set(float_kernels))
+    body = "\n".join(l for l in body.splitlines() if not l.startswith("Definition superlayer"))  # int consts not needed
+    missing = [k for k in float_kernels if k not in mt.funcs]
+    if missing:
+        raise Untranslatable(f"mdc.py: float kernels missing: {missing}")
+    R = lambda c: f"rlookup mdc_pos_K mdc_{c} gid"
+    derived = (f"Definition dx_dz (gid : Z) : R := (({R('east_x')}) - ({R('west_x')})) / (({R('east_z')}) - ({R('west_z')})).\n"
+               f"Definition dy_dz (gid : Z) : R := (({R('east_y')}) - ({R('west_y')})) / (({R('east_z')}) - ({R('west_z')})).\n")
+    mode_m, texts_m = copy_discipline(mtree, mpath, "get_mdc_wire_position", "_mdc_wire_position")
+    epath = str(gdir / "emc.py")
+    etree = ast.parse(open(epath).read())
+    ecols = parse_loader(etree, epath, "_emc_geom", "emc_geom.npz", {})
+    etabs = {py: (f"emc_pos_K emc_{col}", "R") for py, col in ecols.items() if col in EMC_CTR + EMC_PTS}
+    efloat = ["emc_gid_to_point_x", "emc_gid_to_point_y", "emc_gid_to_point_z", "emc_gid_to_center_x", "emc_gid_to_center_y",
+              "emc_gid_to_center_z", "emc_gid_to_front_center_x", "emc_gid_to_front_center_y", "emc_gid_to_front_center_z"]
+    et = kernel_module(epath, etabs, efloat, extra_skip=["get_emc_gid", "emc_gid_to_part", "emc_gid_to_theta", "emc_gid_to_phi"])
+    ebody = et.run(only=set(efloat))
+    missing = [k for k in efloat if k not in et.funcs]
+    if missing:
+        raise Untranslatable(f"emc.py: float kernels missing: {missing}")
+    mode_e, texts_e = copy_discipline(etree, epath, "get_emc_crystal_position", "_emc_geom")
+    files["PosCode.v"] = (RHDR.format(src="mdc.py, emc.py") + "From PV.Gen Require Import TabPos "
+                          + " ".join(f"TabMdcPos_{c}" for c in MDC_POS)
+                          + ".\nLocal Open Scope R_scope.\n" + derived + body + "\n" + ebody + "\n"
+                          + f"Definition mdc_table_handed_out_as_copy : bool := {'true' if mode_m == 'copy' else 'false'}.\n"
+                          + f"Definition emc_table_handed_out_as_copy : bool := {'true' if mode_e == 'copy' else 'false'}.\n")
+    log["float_kernels"] = mt.log + et.log
+    log["copy_discipline"] = {"mdc": mode_m, "emc": mode_e}
+    return files, [g1, ["TabPos.v"], ["PosCode.v"]], log
